@@ -49,11 +49,35 @@ func mantExp(x int64) []int64 { // x = m * 2^k with m odd (0 -> 0,0)
 	return []int64{x, k}
 }
 
-func evSetOps(t *Tracer, x, y []int64, target int64) {
+// alias: 0 = independent arguments; 1 = y is the prefix x[:len(y)] of x's own array; 2 = x is the prefix y[:len(x)] of
+// y's array; 3 = y is the suffix x[len(x)-len(y):] (a caller's windows into one list - the VALUES decide the result,
+// not where they are stored).  The mode is applied only when the values fit it.
+func evSetOps(t *Tracer, x, y []int64, target int64, alias int64) {
 	xs, ys := append([]int64(nil), x...), append([]int64(nil), y...)
 	const sent = int64(-987654321)
 	x, y = spareOf(x, sent), spareOf(y, sent) // spare capacity behind both arguments, as for a caller's sub-slices
-	e := absW.ev("SetOps", map[string]any{"x": x, "y": y, "t": target})
+	eq := func(a, b []int64) bool {
+		if len(a) != len(b) {
+			return false
+		}
+		for i := range a {
+			if a[i] != b[i] {
+				return false
+			}
+		}
+		return true
+	}
+	switch {
+	case alias == 1 && len(y) > 0 && len(y) <= len(x) && eq(x[:len(y)], y):
+		y = x[:len(y)]
+	case alias == 2 && len(x) > 0 && len(x) <= len(y) && eq(y[:len(x)], x):
+		x = y[:len(x)]
+	case alias == 3 && len(y) > 0 && len(y) <= len(x) && eq(x[len(x)-len(y):], y):
+		y = x[len(x)-len(y):]
+	default:
+		alias = 0
+	}
+	e := absW.ev("SetOps", map[string]any{"x": x, "y": y, "t": target, "alias": alias})
 	o, _ := guard(func() (any, error) {
 		e.R = map[string]any{
 			"union": common.Union(x, y), "inter": common.Intersect(x, y), "diff": common.Difference(x, y),
@@ -68,7 +92,7 @@ func evSetOps(t *Tracer, x, y []int64, target int64) {
 	for i := range y {
 		kept = kept && y[i] == ys[i]
 	}
-	e.A["kept"] = kept && tailIntact(x, sent) && tailIntact(y, sent)
+	e.A["kept"] = kept && (alias != 0 || tailIntact(x, sent) && tailIntact(y, sent))
 	if o != "ok" {
 		e.Bad = "outcome " + o
 		e.R = map[string]any{"union": []int64{}, "inter": []int64{}, "diff": []int64{}, "uniq": []int64{}, "incl": false}
@@ -226,7 +250,20 @@ func driveHelpers(t *Tracer, r Rng, n int) {
 	for i := 0; i < n; i++ {
 		switch r.Intn(9) {
 		case 0:
-			evSetOps(t, r.smallInts(r.Intn(7), -3, 6), r.smallInts(r.Intn(7), -3, 6), r.In(-3, 6))
+			x, y := r.smallInts(r.Intn(7), -3, 6), r.smallInts(r.Intn(7), -3, 6)
+			alias := int64(0)
+			if len(x) > 0 && r.Chance(0.35) { // two windows into one list
+				k := 1 + r.Intn(len(x))
+				switch alias = r.In(1, 3); alias {
+				case 1:
+					y = append([]int64(nil), x[:k]...)
+				case 2:
+					x, y = append([]int64(nil), x[:k]...), x
+				default:
+					y = append([]int64(nil), x[len(x)-k:]...)
+				}
+			}
+			evSetOps(t, x, y, r.In(-3, 6), alias)
 		case 1:
 			evMaxMin(t, r.smallInts(r.Intn(6), -1000, 1000))
 		case 2:
@@ -295,7 +332,11 @@ func driveHelpers(t *Tracer, r Rng, n int) {
 func init() {
 	families["helpers"] = driveHelpers
 	reg("SetOps", func(t *Tracer, w Win, a map[string]any) {
-		evSetOps(t, decInts(a["x"]), decInts(a["y"]), decInt(a["t"]))
+		alias := int64(0)
+		if a["alias"] != nil {
+			alias = decInt(a["alias"])
+		}
+		evSetOps(t, decInts(a["x"]), decInts(a["y"]), decInt(a["t"]), alias)
 	})
 	reg("MaxMin", func(t *Tracer, w Win, a map[string]any) { evMaxMin(t, decInts(a["xs"])) })
 	reg("ArithShift", func(t *Tracer, w Win, a map[string]any) { evShiftOp(t, decInt(a["m"]), decInt(a["k"]), decInt(a["s"])) })
